@@ -212,6 +212,7 @@ var cnQueries = []string{
 // ---- fake socket -------------------------------------------------------------------------------------
 
 type cnSocket struct {
+	abrupt bool // the read side ends with a plain error instead of a websocket close frame
 	rec    *cnRec
 	in     chan map[string]interface{}
 	closed chan struct{}
@@ -233,7 +234,10 @@ func (s *cnSocket) ReadJSON(v interface{}) error {
 		s.rec.add("in", fmt.Sprint(m["id"]), m, "")
 		return json.Unmarshal(b, v)
 	case <-s.closed:
-		return &websocket.CloseError{Code: websocket.CloseNormalClosure}
+		if s.abrupt {
+			return errors.New("read: connection reset by peer")
+		}
+		return &websocket.CloseError{Code: websocket.CloseGoingAway}
 	}
 }
 
@@ -386,7 +390,7 @@ func cnRun(cs cnCase) *cnResult {
 	}
 	defer func() { graphql.VerifConnHook = nil }()
 
-	sock := &cnSocket{rec: rec, in: make(chan map[string]interface{}), closed: make(chan struct{})}
+	sock := &cnSocket{rec: rec, in: make(chan map[string]interface{}), closed: make(chan struct{}), abrupt: cs.Seed%3 == 0}
 	ctx, cancel := context.WithCancel(context.Background())
 	defer cancel()
 	max := cs.MaxSubs
